@@ -60,7 +60,7 @@ func init() {
 	reg("C20", ruleWatchStartsBeforeGeneratingAndAlwaysGenerates, ruleNoRunTimeGlobals, ruleWatchSerialised, ruleWatchRecovers, ruleChdirRestored, ruleWatchEveryEventSchedules, ruleWatchSurvivesErrors, ruleWatchInputsNotMutated)
 	reg("C18", ruleMemoKeysAgree, ruleCollectPackages, ruleTemporaryCwdPathsAbsolute, ruleNamespaceFlattening, ruleAllModelsValidated, ruleNoSelfComparison(frontEndFile, "E6", 1), ruleLookedUpMapsAreFilled(frontEndFile, "D1", 15), ruleE2(frontScope, "E2"), ruleE5(frontScope, "E5"))
 	reg("C11", ruleYamlDecodedStrictly, ruleWrapperRecursion, ruleSinksOnlyGrow, ruleParseCachePerPackage, ruleValidateBeforeWrite, ruleWhoMayWrite, ruleAllModelsValidated, rulePassesWalkWholeEnvironment, ruleLookedUpMapsAreFilled(frontEndFile, "D1", 15), ruleNoSelfComparison(frontEndFile, "E6", 1), ruleE1(inMod, "E1"), ruleE2(inMod, "E2"), ruleE5(inMod, "E5"))
-	reg("C09", ruleSymbolTableWritesScoped, ruleArithmeticOnNumbersOnly, ruleSinksOnlyGrow, ruleParseCachePerPackage, rulePassOrder, ruleVisitorCoverage("VisitorWithContext.VisitChildren", "V1", "V2", 30), ruleVisitorCoverage("defaultRewriteImpl", "V3", "V4", 30), ruleAllModelsValidated, ruleFilesAreCombined, ruleLookedUpMapsAreFilled(frontEndFile, "D1", 15), ruleNoSelfComparison(frontEndFile, "E6", 1), rulePassesWalkWholeEnvironment, ruleArityCheckedBeforeResolution, rulePrunes(dslValidationFiles, "V5", 20), ruleContextPositionTests,
+	reg("C09", ruleIntegerBoundsMatchBaseType, ruleSymbolTableWritesScoped, ruleArithmeticOnNumbersOnly, ruleSinksOnlyGrow, ruleParseCachePerPackage, rulePassOrder, ruleVisitorCoverage("VisitorWithContext.VisitChildren", "V1", "V2", 30), ruleVisitorCoverage("defaultRewriteImpl", "V3", "V4", 30), ruleAllModelsValidated, ruleFilesAreCombined, ruleLookedUpMapsAreFilled(frontEndFile, "D1", 15), ruleNoSelfComparison(frontEndFile, "E6", 1), rulePassesWalkWholeEnvironment, ruleArityCheckedBeforeResolution, rulePrunes(dslValidationFiles, "V5", 20), ruleContextPositionTests,
 		ruleE1(frontScope, "E1"), ruleE2(frontScope, "E2"), ruleE5(frontScope, "E5"))
 	reg("C12", ruleKeptFilesAreRecorded, ruleConsoleWriterWithoutTime, ruleNoRunTimeGlobals, ruleMapOrder, ruleSinkSort, ruleCommutativeCallbacks, ruleNoNondeterminism, ruleNoConcurrencyInPipeline, ruleWriteIfNeeded, ruleWhoMayWrite)
 }
